@@ -161,14 +161,20 @@ def shrink(modname, seed, tier, prop, params, choices, signature, budget_s=40.0)
                         xs = ys
                         improved = True
     # strip trailing zeros (equivalent under replay)
+    unstripped = cur
+    cur = dict(cur)
     for label in list(cur):
+        if label in frozen:
+            continue  # identity-like streams fall back to a PRNG, not to zeros, when exhausted
         xs = cur[label]
         while xs and xs[-1] == 0:
             xs = xs[:-1]
         cur[label] = xs
     cur = {k: v for k, v in cur.items() if v}
     if not test(cur):
-        return None, tries
+        cur = unstripped
+        if not test(cur):
+            return None, tries
     return cur, tries
 
 
